@@ -741,12 +741,13 @@ def run_scenario(case):
         _SCP_TAP["log"] = []
     log = HLog()
     from pynetdicom import _config
-    prev_chunked = _config.STORE_RECV_CHUNKED_DATASET
+    prev_chunked, prev_ctxv = _config.STORE_RECV_CHUNKED_DATASET, _config.PASS_CONTEXTVARS
     _config.STORE_RECV_CHUNKED_DATASET = bool(case.get("recv_chunked"))
+    _config.PASS_CONTEXTVARS = bool(case.get("contextvars"))       # read when the AE's threads are created
     try:
         return _run_scenario(case, svc, dimse, ts, log)
     finally:
-        _config.STORE_RECV_CHUNKED_DATASET = prev_chunked
+        _config.STORE_RECV_CHUNKED_DATASET, _config.PASS_CONTEXTVARS = prev_chunked, prev_ctxv
 
 
 def _run_scenario(case, svc, dimse, ts, log):
@@ -1244,7 +1245,23 @@ def _assign_early_destination_abort(cases, seed, pid, tier):
     return cases
 
 
+def _assign_contextvars(cases, seed, pid, tier):
+    """A fifth of the cases (half of the N-EVENT-REPORT ones, which are served in a thread of their own) run with
+    _config.PASS_CONTEXTVARS = True."""
+    from .common import rng_for
+    rng = rng_for(seed, pid, "contextvars", tier)
+    for c in cases:
+        p_ = 0.5 if SERVICES[c["svc"]]["dimse"] == "N-EVENT-REPORT" else 0.2
+        if rng.random() < p_:
+            c["contextvars"] = True
+    return cases
+
+
 def gen_cases(tier, seed, pid, focus=None):
+    return _assign_contextvars(_gen_cases_b(tier, seed, pid, focus), seed, pid, tier)
+
+
+def _gen_cases_b(tier, seed, pid, focus=None):
     return _assign_early_destination_abort(_assign_chunked_receive_and_exc(tier, seed, pid, focus), seed, pid, tier)
 
 
